@@ -9,7 +9,9 @@ from __future__ import annotations
 
 import copy
 import decimal
+import multiprocessing
 import os
+import random
 import re
 from fractions import Fraction
 
@@ -929,3 +931,43 @@ def plain_round(s):
 
 def driver(lines):
     return run_driver("grammar", lines)
+
+
+# --------------------------------------------------------------------------- parallel chunks
+
+def _run_one(pid, tier, seed, chunk_seed, fn, args):
+    from .common import Run
+    sub = Run(pid, tier, seed)
+    sub.rng = random.Random(chunk_seed)
+    fn(sub, *args)
+    return dict(evaluations=sub.evaluations, nontrivial=sub.nontrivial, dist=sub.dist, samples=sub.samples,
+                disagreements=sub.disagreements, violations=sub.violations, known_hits=sub.known_hits,
+                notes=sub.notes)
+
+
+def run_chunks(run, tasks, nproc=14):
+    """execute `fn(sub_run, *args)` for every (fn, args) of `tasks` in forked workers.  Each chunk
+    gets its own PRNG seeded from the run's single PRNG (so a case is reproducible from
+    (VERIF_SEED, chunk, index)); the sub-runs are merged into `run` in task order."""
+    seeds = [run.rng.getrandbits(64) for _ in tasks]
+    jobs = [(run.pid, run.tier, run.seed, s, fn, args) for s, (fn, args) in zip(seeds, tasks)]
+    if len(jobs) == 1 or nproc <= 1:
+        results = [_run_one(*j) for j in jobs]
+    else:
+        ctx = multiprocessing.get_context("fork")
+        with ctx.Pool(min(nproc, len(jobs))) as pool:
+            results = pool.starmap(_run_one, jobs)
+    for r in results:
+        run.evaluations += r["evaluations"]
+        run.nontrivial |= r["nontrivial"]
+        for k, v in r["dist"].items():
+            run.dist[k] = run.dist.get(k, 0) + v
+        for x in r["samples"]:
+            if len(run.samples) < 8:
+                run.samples.append(x)
+        run.disagreements += r["disagreements"]
+        run.violations += r["violations"]
+        for f in r["known_hits"]:
+            if f["id"] not in [k["id"] for k in run.known_hits]:
+                run.known_hits.append(f)
+        run.notes += r["notes"]
